@@ -534,6 +534,12 @@ def isAfterCodecUpgrade (c : SwitchCfg) (h : Int) : Bool :=
   if c.override ≠ -1 then c.override = 1
   else (c.upgradeHeight ≤ h || h = -1) || c.testMode
 
+/-- `codec.GetCodecUpgradeHeight()` from the globals `UpgradeHeight`, `OldUpgradeHeight`. -/
+def getCodecUpgradeHeight (upgradeHeight oldUpgradeHeight : Int) : Int :=
+  if upgradeHeight ≥ upgradeCodecHeight then upgradeCodecHeight
+  else if oldUpgradeHeight ≠ 0 ∧ oldUpgradeHeight < upgradeHeight then oldUpgradeHeight
+  else upgradeHeight
+
 /-- `Codec.MarshalBinaryBare(o, height)` for a proto-capable object, with the two codecs abstract. -/
 def marshalAt {α} (c : SwitchCfg) (aminoEnc protoEnc : α → Option Bytes) (h : Int) (v : α) : Option Bytes :=
   if isAfterCodecUpgrade c h then protoEnc v else aminoEnc v
